@@ -19,6 +19,15 @@ CLAIMS = {
             "all 2025 first writes, one-call and split); recorded histories with concrete adversarial bytes are "
             "validated against the spec by TLC. Bounded: histories longer than 2 writes are sampled.",
             TB + "Wrapped file object is io.BytesIO.", "3 C04"),
+    'C05': ("TLA+ spec (Unblocker/Blocks) model-checked by TLC incl. termination; TLC-enumerated read behaviours and "
+            "fault cases replayed on Unblock1014/unblock_1014; recorded read sequences trace-validated by TLC",
+            "TLC exhaustively checks that the refill/deliver machine refines the abstract read (slice of the payload "
+            "stream, read-all gives the rest) and terminates, and the one-shot laws (inversion up to fill, every cut and "
+            "trailer corruption refused) at small P; at P=1012 every (first read, next size 0..2025) behaviour on a whole "
+            "and a cut-short input and every cut length / trailer byte value are enumerated by TLC and replayed on the "
+            "real code; recorded read sequences over arbitrary inputs are validated by TLC with concrete bytes.",
+            TB + "Wrapped file object is io.BytesIO; read(0) written explicitly and negative sizes are outside the "
+            "statement.", "3 C05"),
 }
 
 PENDING = "check not built yet in this round (specification under construction; see DESIGN.md section 3)"
